@@ -102,6 +102,15 @@ def gen_case(r, depth, free_bound=False):
         else:
             b = small.const()
         rels.append((a, b) if r.random() < 0.5 else (b, a))
+    # variable-variable unions of every kind (consts and lifetimes as often as types), including chains
+    if nv >= 2 and r.random() < 0.5:
+        for tag in r.sample(["T", "L", "C"], 3):
+            vs = [i for i, kd in enumerate(kinds) if kd[0] == tag and (tag != "T" or kd == kinds[[j for j, k2 in enumerate(kinds) if k2[0] == "T"][0]])]
+            if len(vs) >= 2 and r.random() < 0.7:
+                r.shuffle(vs)
+                chain = vs[:r.choice([2, 2, 3])]
+                for x, y in zip(chain, chain[1:]):
+                    rels.insert(r.randrange(len(rels) + 1), (g.var_term(x), g.var_term(y)))
     k = r.random()
     if k < 0.5:
         term = g.ty(depth)
@@ -111,6 +120,37 @@ def gen_case(r, depth, free_bound=False):
         term = N("HList", [g.garg(depth - 1) for _ in range(r.randint(0, 4))])
     else:
         term = r.choice([g.clause, g.domain_goal, g.wc])(depth) if r.random() < 0.7 else r.choice([g.lifetime, g.const])()
+    return {"nu": nu, "kinds": kinds, "univ": univ, "rels": rels, "term": term}
+
+
+def gen_union_case(r):
+    """Small cases centred on classes built by variable-variable unification: 2-4 variables of ONE kind
+    (type / lifetime / const), unified pairwise or in a chain, all mentioned directly by the value."""
+    nu = r.randrange(3)
+    tag = r.choice(["T", "L", "C", "L", "C"])
+    kd = (tag, r.choice(["General", "General", "Integer", "FloatVar"])) if tag == "T" else (tag,)
+    nv = r.choice([2, 2, 3, 3, 4])
+    kinds = [kd] * nv
+    extra = r.randrange(3)
+    kinds += [r.choice(KIND_CHOICES) for _ in range(extra)]
+    univ = [r.randrange(nu + 1) for _ in range(nv + extra)]
+    g = CGen(r, kinds, pvar=0.7, max_depth=2)
+    order = list(range(nv))
+    r.shuffle(order)
+    nlinks = r.randrange(nv)           # 0 .. nv-1 links: several classes possible
+    rels = []
+    for x, y in list(zip(order, order[1:]))[:nlinks]:
+        rels.append((g.var_term(x), g.var_term(y)) if r.random() < 0.5 else (g.var_term(y), g.var_term(x)))
+    r.shuffle(rels)
+    items = [g.var_term(v) for v in range(nv)]
+    for _ in range(r.randrange(3)):
+        items.append(g.garg(1))
+        items.append(g.var_term(r.randrange(nv)))
+    r.shuffle(items)
+    if r.random() < 0.5:
+        term = N("HList", items)
+    else:
+        term = N(("HAdt", 1), items)
     return {"nu": nu, "kinds": kinds, "univ": univ, "rels": rels, "term": term}
 
 
@@ -141,6 +181,39 @@ def rename_term(t, f):
     if isinstance(h, tuple) and h[0] in ("HCPlaceholder", "HCConcrete"):
         return t
     return ("Node", h, [rename_term(c, f) for c in t[2]])
+
+
+def rename_occurrences(t, f):
+    """like rename_term, but f is called once per occurrence (may answer differently each time)"""
+    return rename_term(t, f)
+
+
+def minimize_class_case(c, table):
+    """Smallest script showing that two variables of one class get two binders / different forms:
+    two variables a, b of the case's kind, one relate, value [a, b] (and [b, a], [b, b])."""
+    out = None
+    pairs = []
+    for a in range(len(c["kinds"])):
+        for b in range(len(c["kinds"])):
+            if a != b and a < len(table) and b < len(table) and table[a][0] == table[b][0] and c["kinds"][a] == c["kinds"][b] and table[a][1][0] == "Unbound":
+                pairs.append((a, b))
+    cands = []
+    for a, b in pairs[:6]:
+        kd = c["kinds"][a]
+        g = CGen(None, [kd, kd])
+        for rel in ((0, 1), (1, 0)):
+            for items in ((0, 1), (1, 0)):
+                cands.append({"nu": 0, "kinds": [kd, kd], "univ": [0, 0], "rels": [(g.var_term(rel[0]), g.var_term(rel[1]))],
+                              "term": N("HList", [g.var_term(items[0]), g.var_term(items[1])])})
+    if not cands:
+        return None
+    outs = core.run_harness("canon", [case_sx(x) for x in cands], args=["canon"], shards=1)
+    for x, o in zip(cands, outs):
+        res = parse_result(o)
+        if res and not is_panic(res["canon"]) and len(res["canon"][1]) != 1:
+            return {"case": sx.to_sexp(case_sx(x)), "canonical": sx.to_sexp(Pair(res["canon"][1], res["canon"][2])),
+                    "expected": "one binder: the two variables were unified, the value is [^0.0, ^0.0]"}
+    return out
 
 
 def syntactic_vars(t, acc=None):
@@ -185,6 +258,31 @@ def placeholder_universes(t, acc=None):
             return acc
         for c in t[2]:
             placeholder_universes(c, acc)
+    return acc
+
+
+def classes_in(t, table, acc=None, depth=0):
+    """Resolve the value through the dumped table (independently of the Coq model): the distinct unbound
+    classes it reaches, in order of first occurrence, as (root, kind at that occurrence, universe)."""
+    acc = [] if acc is None else acc
+    if t[0] != "Node" or depth > 64:
+        return acc
+    h = t[1]
+    if isinstance(h, tuple) and h[0] in ("HInfer", "HLInfer", "HCInfer"):
+        v = h[1]
+        if v >= len(table):
+            return acc
+        root, val = table[v][0], table[v][1]
+        if val[0] == "Bound":
+            classes_in(val[1], table, acc, depth + 1)
+        elif root not in [c[0] for c in acc]:
+            kind = ("VTy", h[2]) if h[0] == "HInfer" else ("VLt" if h[0] == "HLInfer" else "VConst")
+            acc.append((root, kind, val[1]))
+        return acc
+    if isinstance(h, tuple) and h[0] in ("HCPlaceholder", "HCConcrete"):
+        return acc
+    for c in t[2]:
+        classes_in(c, table, acc, depth)
     return acc
 
 
@@ -272,6 +370,19 @@ def property_on_impl(ctx, tag, csx, res, viol):
             bad("number of binders differs from the number of distinct canonical variables", canonical=val, binders=bs)
     if len(set(f[1] for f in frees)) != len(frees):
         bad("free_vars lists a class twice", frees=frees)
+    table = res["table"]
+    term = csx[2]
+    cls = classes_in(term, table)
+    roots = [table[f[1]][0] if f[1] < len(table) else f[1] for f in frees]
+    if len(set(roots)) != len(roots):
+        bad("free_vars lists the same unification class twice (two variables unified before canonicalization got two binders)",
+            frees=frees, classes_of_free_vars=roots, canonical=Pair(bs, val))
+    elif len(bs) != len(cls):
+        bad("the number of canonical binders differs from the number of distinct unbound classes occurring in the value",
+            binders=bs, classes=[c[0] for c in cls], canonical=Pair(bs, val))
+    elif roots != [c[0] for c in cls] or list(bs) != [Pair(c[1], c[2]) for c in cls]:
+        bad("binders are not the unbound classes of the value in order of first occurrence with the kind of that occurrence and the universe of the class",
+            binders=bs, expected=[Pair(c[1], c[2]) for c in cls], frees=frees)
     # round trip: instantiate + canonicalize
     rc = res["recanon"]
     if is_panic(rc) or (rc[1], rc[2]) != (bs, val):
@@ -315,11 +426,12 @@ def run(ctx):
                               extra_targets=["Infer/Exec.vo"])
     core.build_harness(bins=["canon"])
     r = ctx.rng
-    nbase = ctx.n(320, 6000)
+    nbase = ctx.n(260, 6000)
     depth = ctx.n(3, 4)
     corpus = load_corpus()
     base = [gen_case(r, depth) for _ in range(nbase)]
     malformed = [gen_case(r, 3, free_bound=True) for _ in range(ctx.n(40, 600))]   # free bound variables: canonicalize panics
+    base += [gen_union_case(r) for _ in range(ctx.n(120, 2000))]                     # classes built by var-var unification
 
     cases = []   # (tag, case sexp value, meta)
     for c in corpus:
@@ -419,6 +531,26 @@ def run(ctx):
             c2["univ"] = list(c["univ"])
             c2["univ"][a] = c["univ"][a] + 1 + r.randrange(2)
             neg.append(("universe-changed", case_sx(c2), i))
+    # same value written with other members of the classes: every variable that was unified with other
+    # variables before canonicalization is replaced by a random member of its class -> SAME canonical form
+    for i, c in enumerate(base):
+        csx, res = by_base[i]
+        if is_panic(res["canon"]) or "Panicked" in res["opres"]:
+            continue
+        table = res["table"]
+        members = {}
+        for v, e in enumerate(table[:len(c["kinds"])]):
+            members.setdefault((e[0], c["kinds"][v]), []).append(v)
+        groups = {v: ms for ms in members.values() if len(ms) >= 2 for v in ms}
+        synt = set(syntactic_vars(c["term"]))
+        if not (synt & set(groups)):
+            continue
+        for _ in range(2):
+            choice = {}
+            c2 = dict(c)
+            c2["term"] = rename_occurrences(c["term"], lambda v: r.choice(groups[v]) if v in groups else v)
+            if c2["term"] != c["term"]:
+                neg.append(("class-swapped", case_sx(c2), i))
     nouts = core.run_harness("canon", [c[1] for c in neg], args=["canon"])
     for (tag, csx, i), o in zip(neg, nouts):
         res = parse_result(o)
@@ -426,6 +558,17 @@ def run(ctx):
             raise core.CheckFailure("harness could not run case %s: %s" % (sx.to_sexp(csx)[:300], o))
         bsx, bres = by_base[i]
         ctx.count(tag, tag + sx.to_sexp(csx), nontrivial=True)
+        if tag == "class-swapped":
+            if canon_of(res) != canon_of(bres):
+                if viol[0] < 4:
+                    small = minimize_class_case(base[i], bres["table"])
+                    ctx.violation({"kind": "property", "what": "replacing a variable by another member of its unification class (variables unified with each other before canonicalization) changes the canonical form",
+                                   "case": sx.to_sexp(bsx), "other_case": sx.to_sexp(csx),
+                                   "canonical": sx.to_sexp(Pair(*canon_of(bres))) if canon_of(bres) != "panic" else "panic",
+                                   "other_canonical": sx.to_sexp(Pair(*canon_of(res))) if canon_of(res) != "panic" else "panic",
+                                   "minimal_case": small})
+                viol[0] += 1
+            continue
         if canon_of(res) == canon_of(bres):
             if viol[0] < 4:
                 ctx.violation({"kind": "property", "what": "two values that do not differ by a kind/universe-preserving renaming (%s) have the same canonical form" % tag,
